@@ -186,6 +186,12 @@ def run(ctx, eng):
     check_coh_frame_size(ctx, eng)
     check_output_slicing(ctx, eng)
     check_incomplete_frame(ctx, eng)
+    cm.include(ctx, eng, 'C11',
+               lambda o: o.rule == 'COH.apply-map' and
+               o.desc.startswith('local '),
+               'a limit the peer acknowledged applies from the ACK on, not '
+               'from the next receive_data call: otherwise frames that share '
+               'a chunk with the ACK are judged differently')
     cm.include(ctx, eng, 'C06',
                lambda o: o.rule == 'FSM.layer3' and isinstance(o.desc, str)
                and o.desc.startswith('normal dispatch emits'),
